@@ -92,6 +92,20 @@ Theorem C06_clamped_never_wraps :
 Proof. exact (conj dur_nonneg clamped_far_future). Qed.
 Print Assumptions C06_clamped_never_wraps.
 
+(* F12c. Before its repair the cancellation reached the socket only when writePump looked at the
+   `cancelled` channel: with a writer blocked on a stalled reader that is up to writeWait (10 s)
+   after the timer fired - more than the second the property allows. Since the repair the watcher
+   closes the socket itself, so the closure instant is the firing instant whatever the writer does. *)
+Theorem C06_blocked_writer_refuted :
+  exists f w, w <= f /\ f + ns_per_s < cancel_seen_unrepaired f (Some w) /\
+              cancel_seen_unrepaired f (Some w) <= f + write_wait.
+Proof. exact blocked_writer_late. Qed.
+Print Assumptions C06_blocked_writer_refuted.
+
+Theorem C06_cancel_reaches_socket_at_once : forall f blocked, cancel_seen f blocked = f.
+Proof. exact cancel_seen_at_fire. Qed.
+Print Assumptions C06_cancel_reaches_socket_at_once.
+
 (* non-vacuity: a 3 s token accepted 0.9 s into a second closes 0.9 s into the second after E;
    130 s of idling with prompt pongs leaves a long-lived connection open; the same without pongs
    is dropped at 60 s; the overflow witness really has a valid (accepted) token *)
